@@ -108,6 +108,15 @@ def enum_cases(tier, seed):
         yield {"s": c}
         yield {"s": c * 3}
     yield {"s": ""}
+    # a valid word wrapped in matching delimiters (quoted / bracketed as it might arrive from a CSV field or a shell argument)
+    for w in words[:3]:
+        for c in [chr(i) for i in range(33, 127) if not chr(i).isalnum()] + ["“", "«"]:
+            close = {"(": ")", "[": "]", "{": "}", "<": ">", "“": "”", "«": "»"}.get(c, c)
+            for pad in ("", " "):
+                yield {"s": pad + c + w + close + pad}
+    for name in ["ALASER", "METLYSVAL", "GLYSERGLYSER", "HISHISHISHISHISHIS", "ASPARGTHRTRP", "ALA", "SERSER"]:
+        yield {"s": name}
+        yield {"s": name.lower()}
 
 
 WS = " \t\n\r\x0b\x0c   \u0085　\x1c\x1d\x1e\x1f"
@@ -117,7 +126,17 @@ FOREIGN = st.one_of(st.sampled_from(list("BJOUXZbjouxz*-_.,;:!?0123456789@#$%&()
 
 @st.composite
 def hyp_case(draw, max_len):
-    kind = draw(st.sampled_from(["decorated", "decorated", "foreign", "foreign", "text", "nonstring"]))
+    kind = draw(st.sampled_from(["decorated", "decorated", "foreign", "foreign", "text", "nonstring", "long"]))
+    if kind == "long":
+        # more than a thousand characters, with or without one foreign character somewhere
+        n = draw(st.integers(1001, 1400))
+        body = draw(gens.exact_words(ref.AA, n))
+        if draw(st.booleans()):
+            pos = draw(st.integers(0, n))
+            body = body[:pos] + draw(st.sampled_from(["é", "α", "А", "​", "﻿", "X", "1", "中", "ß"])) + body[pos:]
+        if draw(st.booleans()):
+            body = " ".join(body[i:i + 10] for i in range(0, len(body), 10))
+        return {"s": body}
     if kind == "text":
         return {"s": draw(st.text(max_size=30))}
     if kind == "nonstring":
